@@ -12,7 +12,7 @@ ASSUME = ["polygons have <= 6 shell vertices on the 4x4 lattice / <= 4 on the 5x
 
 
 def check(tier, seed, t0):
-    runs = poly_common.poly_runs(tier) + [
+    runs = poly_common.poly_runs(tier, huge=True) + [
         # thin rings with generic 53-bit mantissas (exact sign from BigInt.tla): winding_order must follow the EXACT signed area
         dict(name="thin", module="Gen_Orient", constants=dict(SeedLo=1 + 100 * (seed % 7), SeedHi=(100 if tier == "quick" else 600) + 100 * (seed % 7)),
              invariants=["OrientLaws"])]
